@@ -120,6 +120,7 @@ impl<T: Tag> IndexEntry<T> {
         proof {
             assert(layout_len(sorted0) <= 0x7fff_0000);
             assert(sorted0.take(0) =~= Seq::<IndexEntry<T>>::empty());
+            lemma_layout_empty::<T>();
             assert forall|i: int, j: int| 0 <= i < j < sorted0.len() implies sorted0[i].tag <= sorted0[j].tag by {
                 let e1 = &sorted0[i];
                 let e2 = &sorted0[j];
@@ -137,7 +138,7 @@ impl<T: Tag> IndexEntry<T> {
         let ghost body = store@;
         '''),
                ('let mut all_records', 'let ghost recs = actual_records@;\n        let ghost rt = region_tag;\n        '),
-               ('let store_size', '''proof {
+               ('let index_header = IndexHeader::new(', '''proof {
             assert(all_records@ =~= seq![rt] + recs);
             assert(all_records@.subrange(1, all_records@.len() as int) =~= recs);
             // the records carry the data / tags of the sorted input and the laid-out offsets
@@ -151,6 +152,7 @@ impl<T: Tag> IndexEntry<T> {
     Raw('''}
 // ---- the layout from_entries must produce (rpm header rules, C09) -------------------------------
 /// length of the store after laying out the records of p in order
+#[verifier::opaque]
 pub open spec fn layout_len<T: Tag>(p: Seq<IndexEntry<T>>) -> int
     decreases p.len(),
 {
@@ -159,6 +161,7 @@ pub open spec fn layout_len<T: Tag>(p: Seq<IndexEntry<T>>) -> int
         l + align_pad(l, align_of(p.last().data)) + enc_data(p.last().data).len()
     }
 }
+#[verifier::opaque]
 pub open spec fn layout_bytes<T: Tag>(p: Seq<IndexEntry<T>>) -> Seq<u8>
     decreases p.len(),
 {
@@ -181,14 +184,24 @@ pub proof fn lemma_layout_step<T: Tag>(p: Seq<IndexEntry<T>>, k: int)
         0 <= align_pad(layout_len(p.take(k)), align_of(p[k].data)) < 8,
         offset_at(p, k) % align_of(p[k].data) == 0,
 {
+    reveal_with_fuel(layout_len, 2);
+    reveal_with_fuel(layout_bytes, 2);
     assert(p.take(k + 1).drop_last() =~= p.take(k));
     assert(p.take(k + 1).last() == p[k]);
     lemma_layout_bytes_len(p.take(k));
+}
+pub proof fn lemma_layout_empty<T: Tag>()
+    ensures layout_len(Seq::<IndexEntry<T>>::empty()) == 0, layout_bytes(Seq::<IndexEntry<T>>::empty()) == Seq::<u8>::empty(),
+{
+    reveal_with_fuel(layout_len, 2);
+    reveal_with_fuel(layout_bytes, 2);
 }
 pub proof fn lemma_layout_bytes_len<T: Tag>(p: Seq<IndexEntry<T>>)
     ensures layout_bytes(p).len() == layout_len(p), layout_len(p) >= 0,
     decreases p.len(),
 {
+    reveal_with_fuel(layout_len, 2);
+    reveal_with_fuel(layout_bytes, 2);
     if p.len() > 0 { lemma_layout_bytes_len(p.drop_last()); }
 }
 pub proof fn lemma_layout_mono<T: Tag>(p: Seq<IndexEntry<T>>, k: int)
@@ -208,6 +221,8 @@ pub proof fn lemma_layout_same<T: Tag>(a: Seq<IndexEntry<T>>, b: Seq<IndexEntry<
     ensures layout_len(a) == layout_len(b), layout_bytes(a) == layout_bytes(b),
     decreases a.len(),
 {
+    reveal_with_fuel(layout_len, 2);
+    reveal_with_fuel(layout_bytes, 2);
     if a.len() > 0 {
         lemma_layout_same(a.drop_last(), b.drop_last());
     }
@@ -257,6 +272,7 @@ OBLIGATIONS = {
     'lemma_layout_step': ['C09'],
     'lemma_layout_bytes_len': ['C09'],
     'lemma_layout_mono': ['C09'],
+    'lemma_layout_empty': ['C09'],
     'lemma_layout_same': ['C09'],
     'lemma_offset_same': ['C09'],
 }
